@@ -101,7 +101,11 @@ def carrysave_adder(a, b, c, final_adder=ripple_add):
     a, b, c = libutils.match_bitwidth(a, b, c)
     partial_sum = a ^ b ^ c
     shift_carry = (a | b) & (a | c) & (b | c)
-    return pyrtl.concat(final_adder(partial_sum[1:], shift_carry), partial_sum[0])
+    if len(partial_sum) == 1:
+        upper_sum = pyrtl.Const(0, bitwidth=1)  # 1-bit inputs: no sum bits above bit 0
+    else:
+        upper_sum = partial_sum[1:]
+    return pyrtl.concat(final_adder(upper_sum, shift_carry), partial_sum[0])
 
 
 def cla_adder(a, b, cin=0, la_unit_len=4):
